@@ -340,6 +340,7 @@ pub proof fn lemma_c15_double_difference(a: Range, b: Range, d: Option<Range>, d
 pub proof fn lemma_c06_rwf_closed(a: Range, b: Range, i: Option<Range>, d: Option<Range>)
     requires rinter_post(a, b, i), rdiff_post(a, b, d)
     ensures i matches Some(x) ==> rwf(x), d matches Some(x) ==> rwf(x),
+            (rsmall(a) && rsmall(b)) ==> (i matches Some(x) ==> rsmall(x)) && (d matches Some(x) ==> rsmall(x)),
 {}
 
 // ---------------------------------------------------------------- C01 / C02
